@@ -41,4 +41,10 @@ CLAIMED["C05"] = {
     "technique": "Lean 4 theorems (Mathlib ZMod) over a hand-written model + differential correspondence check",
 }
 
+CLAIMED["C01"] = {
+    "text": "Theorems for all strings, all hash functions and all entropies: a phrase is accepted iff its whitespace-separated words form a valid BIP-39 sentence of 12/15/18/21/24 list words with matching checksum (accept_iff); everything else is an ordinary error, never a panic (reject_is_err, bad_count_rejected); the stored entropy is the unique one BIP-39 assigns (entropy_spec, entropy_unique); the printed form is the words joined by single spaces and the length is the word count (print_spec); parse and print are mutually inverse for every entropy of the five sizes (parse_print); only words matter, not layout (layout_indep). The word table is REGENERATED from /repo's english.txt on every run and the kernel re-checks 2048 entries, strict byte order (binary_search's precondition) and lower-case ASCII (table_facts), from which lookup/index inversion follows (search_spec, word_spec). The model is tied to src/mnemonic.rs by word counts 0..40, every word of the list, all 2048 final-word candidates, entropy round trips with injected entropy, layouts and malformed input, each judged by an executable Spec.Bip39.Valid.",
+    "note": COMMON_NOTE + " 64-bit usize; slice::binary_search at contract level (its precondition is proved for the regenerated table); wasm32 out of scope.",
+    "technique": "Lean 4 theorems over a hand-written model + word table regenerated from source + differential correspondence check",
+}
+
 NOT_YET = {}
